@@ -3,18 +3,18 @@ Open Scope string_scope.
 
 (* value stored and read back through set/get and set_many/get_many under one configuration *)
 Inductive case :=
-| CRt (c : cfg) (key : string) (v : val) (dt : dtable) (lt : ltable) (mt : mtable)
+| CRt (c : cfg) (key : string) (v : val) (dt : dtable) (lt : ltable) (mt : mtable) (ct : ctable)
       (stored_obs : stored) (r_get r_many : dres).
 
 Definition judge (c : case) : verdict :=
   match c with
-  | CRt c key v dt lt mt so rg rm =>
-      let st := encode (t_dumps dt) (t_mac mt) c key v in
-      let r := fst (decode (t_loads lt) (t_mac mt) c key st) in
+  | CRt c key v dt lt mt ct so rg rm =>
+      let st := encode (t_dumps dt) (t_mac mt) (t_cenc ct) c key v in
+      let r := fst (decode (t_loads lt) (t_mac mt) (t_cdec ct) c key st) in
       (stored_eqb st so && dres_eqb r rg && dres_eqb r rm, dres_eqb (DVal v) rg && dres_eqb (DVal v) rm, [])
   end.
 Definition explain (c : case) :=
   match c with
-  | CRt c key v dt lt mt _ _ _ =>
-      let st := encode (t_dumps dt) (t_mac mt) c key v in (st, fst (decode (t_loads lt) (t_mac mt) c key st))
+  | CRt c key v dt lt mt ct _ _ _ =>
+      let st := encode (t_dumps dt) (t_mac mt) (t_cenc ct) c key v in (st, fst (decode (t_loads lt) (t_mac mt) (t_cdec ct) c key st))
   end.
